@@ -46,4 +46,73 @@ def breakEvs (i : Nat) : List Ev :=
 def breakCorruptEvs (i : Nat) : List Ev :=
   [.start i .brk, .step i, .step i, .step i, .step i, .step i]
 
+/-! ## lost replies: a rename that takes effect and then raises
+
+A layer on top of the machine of Model/C26.lean (which is not changed): one more event.  `lost i k`: the pending
+transport call of locker `i` is one of the four renames of `held/` (`rename(pending, held)` of an attempt,
+`rename(held, releasing…)` of `unlock`, `rename(held, broken…)` of `force_break` / `force_break_corrupt`); the
+server performs it, but the reply is lost and the call raises the transport error `k`.  What the code does
+next is transcribed from `lockdir.py`:
+
+* `_attempt_lock`: the `except (TransportError, PathError, …)` clause takes it for contention: `peek()` (sees
+  its own info), `_handle_lock_contention` (the holder — this very process — is not dead) raises
+  `LockContention`, `_remove_pending_dir` finds nothing to remove (`PathError`, noted);
+* `unlock`: the error is swallowed by `only_raises`; `_lock_held = False` is never reached and the
+  `releasing.*` directory stays behind with its info;
+* `force_break` / `force_break_corrupt`: the error propagates (inside a stealing attempt: after
+  `_remove_pending_dir`), the `broken.*` directory stays behind.
+
+A rename that fails by itself (target exists / source missing) has no effect to lose: the event is then the
+ordinary step.  On any other pending call the event is the ordinary fault.  After a lost reply an attempt has no
+pending directory any more; if it comes back to its rename (after stealing the lock from a dead holder) the
+rename raises `NoSuchFile` — a `PathError`, handled like contention. -/
+
+inductive Ev27
+  | base (e : Ev)
+  | lost (i : Nat) (k : FaultKind)
+deriving DecidableEq, Repr
+
+def lostReply (id : Nat) (cfg : Nat → Cfg) (crashed : Nat → Bool) (k : FaultKind) (me : Locker)
+    (held : Option Dir) : Locker × Option Dir :=
+  match me.pc with
+  | .aRename =>
+    match held, me.pend with
+    | none, some d => ({ me with pend := none, pc := .aPeekC }, some d)
+    | _, none => ({ me with pc := .aPeekC }, held)
+    | some _, some _ => ((lstep id cfg crashed me held).1, (lstep id cfg crashed me held).2.1)
+  | .uRename =>
+    match held with
+    | some d => (({ me with junk := me.junk ++ [(Kind.R, d)] }).done .swallowed, none)
+    | none => ((lstep id cfg crashed me held).1, (lstep id cfg crashed me held).2.1)
+  | .bRename _ ret =>
+    match held with
+    | some d => (breakErr { me with junk := me.junk ++ [(Kind.B, d)] } ret k.res, none)
+    | none => ((lstep id cfg crashed me held).1, (lstep id cfg crashed me held).2.1)
+  | .xRename _ =>
+    match held with
+    | some d => (({ me with junk := me.junk ++ [(Kind.B, d)] }).done k.res, none)
+    | none => ((lstep id cfg crashed me held).1, (lstep id cfg crashed me held).2.1)
+  | _ => (lfault k me, held)
+
+/-- `fx` selects the variant of `_attempt_lock` (probed on the real code on every run): `false` = the
+contention handler does not look at whose lock it found; `true` = a handler that recognises its *own current
+nonce* in `held/` (the rename did take effect) and goes on to the confirming peek. -/
+def step27 (fx : Bool) (s : Sys) : Ev27 → Sys
+  | .base (.step i) =>
+    -- the pending directory was renamed into place by a lost reply earlier: `rename` raises NoSuchFile
+    if s.crashed i = false ∧ (s.lk i).pc = .aRename ∧ (s.lk i).pend = none then
+      { s with lk := upd s.lk i { s.lk i with pc := .aPeekC } }
+    else if fx = true ∧ s.crashed i = false ∧ (s.lk i).pc = .aPeekC ∧
+        s.held = some (some (.ok ⟨i, (s.lk i).nonce⟩)) then
+      { s with lk := upd s.lk i { s.lk i with pc := .aConfirm } }
+    else s.step (.step i)
+  | .base e => s.step e
+  | .lost i k =>
+    if s.crashed i then s
+    else
+      let r := lostReply i s.cfg s.crashed k (s.lk i) s.held
+      { s with lk := upd s.lk i r.1, held := r.2 }
+
+def run27 (fx : Bool) (s : Sys) (evs : List Ev27) : Sys := evs.foldl (step27 fx) s
+
 end BreezyVerif.C27
